@@ -147,6 +147,16 @@ def _work(ctx: Ctx, item):
     for key in keys:
         d = db.by_key[key]
         bp, bn, _ = gen.benign_payload(d)
+        # the (shared) encoder has a history: it has been handed decoded messages of this PGN's other definitions, including the
+        # ones it legitimately refuses (variable-length / unsupported field types); that must not change what it does for d
+        for sib in db.by_pgn[d.pgn]:
+            if sib is not d and sib.supported:
+                m = gen.benign_message(sib)
+                if m is not None:
+                    try:
+                        ck.enc.encode_actisense(m)
+                    except Exception:
+                        ctx.klass("sibling_refused_by_encoder")
 
         def one(p, d=d):
             payload, nbytes, classes = p
